@@ -309,3 +309,41 @@ func VH_C19_colors_func_Q() {
 		vAssert("C19.colors.named", svg.parseColor("Red") == color.RGBA{255, 0, 0, 255} && svg.parseColor("cornflowerblue") == color.RGBA{100, 149, 237, 255} && svg.err == nil)
 	}
 }
+
+// C19-H9: fill-rule through whole documents (SVG 2 13.4.2: fill-rule nonzero | evenodd, inherited,
+// initial nonzero).  It is also what the library's SVG back-end writes for an even-odd fill, so it
+// has to be read back.  Attribute / style attribute / inherited from the group / absent.
+func VH_C19_document_fillrule_Q() {
+	vhC19Stubs()
+	where := vChoose(0, 3) // 0 none, 1 attribute, 2 style attribute, 3 on the group
+	x := vNondetDyadic(6, 2)
+	vAssume(0 <= x && x <= 10)
+	doc := `<svg viewBox="` + vhC19Num(0) + " " + vhC19Num(0) + " " + vhC19Num(100) + " " + vhC19Num(50) + `" xmlns="http://www.w3.org/2000/svg"><g`
+	if where == 3 {
+		doc += ` fill-rule="evenodd"`
+	}
+	doc += `><rect x="` + vhC19Num(x) + `" y="` + vhC19Num(2) + `" width="` + vhC19Num(3) + `" height="` + vhC19Num(4) + `"`
+	if where == 1 {
+		doc += ` fill-rule="evenodd"`
+	} else if where == 2 {
+		doc += ` style="fill-rule:evenodd"`
+	}
+	doc += `/></g><rect x="` + vhC19Num(20) + `" y="` + vhC19Num(2) + `" width="` + vhC19Num(3) + `" height="` + vhC19Num(4) + `"/></svg>`
+	c, err := ParseSVG(bytes.NewReader([]byte(doc)))
+	vAssert("C19.docfillrule.parsed", err == nil && c != nil)
+	if err != nil || c == nil {
+		return
+	}
+	rec := &vhC15Rec{w: c.W, h: c.H}
+	c.RenderTo(rec)
+	vAssert("C19.docfillrule.two_paths", len(rec.calls) == 2)
+	if len(rec.calls) != 2 {
+		return
+	}
+	want := NonZero
+	if where != 0 {
+		want = EvenOdd
+	}
+	vAssert("C19.docfillrule.rule", rec.calls[0].style.FillRule == want)
+	vAssert("C19.docfillrule.sibling_default", rec.calls[1].style.FillRule == NonZero)
+}
